@@ -54,11 +54,30 @@ KINDS = [("raise", None), ("raise_empty", None), ("assert", None), ("exit", 0), 
          ("term_shm", None), ("kill_shm", None)]
 
 
+STRATA = ([("task", k, c, at) for (k, c) in KINDS for at in ("before", "between", "after")]
+          + [("helper", h, sig, None) for h in ("worker", "data", "shm") for sig in ("SIGKILL", "SIGTERM")]
+          + [("none", None, None, None)])
+
+
 @st.composite
-def plans(draw):
+def plans(draw, stratum=None):
+    """stratum: (where, kind/helper, code/signal, at) fixes the kind of fault (stratified sampling: with 48 real clusters per quick run
+    a purely random choice leaves some of the 37 kinds of fault un-sampled in most runs); the job, the victim, the cluster shape
+    and the moment of a helper kill are always generated."""
     spec = draw(job_specs(max_tasks=6, min_tasks=2, gpu=False, ext="none"))
     n = len(spec["tasks"])
     vi = draw(st.integers(0, n - 1))
+    if stratum is not None and stratum[0] == "task" and stratum[3] != "before":
+        multi_idx = [i for i, t in enumerate(spec["tasks"]) if len(t["outs"]) > 1]
+        if multi_idx:
+            vi = draw(st.sampled_from(multi_idx))
+        else:  # make the victim a two-output generator; its consumers keep reading its first output
+            old = spec["tasks"][vi]["outs"][0]
+            spec["tasks"][vi]["outs"] = ["0", "1"]
+            for t in spec["tasks"]:
+                for sl in list(t["args"]) + list(t["kwargs"].values()):
+                    if "e" in sl and sl["e"][0] == vi and sl["e"][1] == old:
+                        sl["e"] = [vi, "0"]
     # requested outputs: a dataset downstream of (or produced by) the victim, plus sometimes others
     down = {vi}
     for (s, _o, d, _p) in sorted(spec_edges(spec), key=lambda e: e[2]):
@@ -74,21 +93,24 @@ def plans(draw):
     spec["ext"] = ext
     hosts = draw(st.integers(1, 2))
     workers = draw(st.integers(1, 2))
-    where = draw(st.sampled_from(["none", "task", "task", "task", "task", "helper", "helper"]))
+    where = stratum[0] if stratum is not None else draw(st.sampled_from(["task", "task", "task", "task", "helper", "helper", "none"]))
     if where == "task":
-        kind, code = draw(st.sampled_from(KINDS))
+        kind, code = (stratum[1], stratum[2]) if stratum is not None else draw(st.sampled_from(KINDS))
         multi = len(spec["tasks"][vi]["outs"]) > 1
-        at = draw(st.sampled_from(["before", "between", "after"])) if multi else "before"
+        at = (stratum[3] if stratum is not None else draw(st.sampled_from(["before", "between", "after"]))) if multi else "before"
         fault = {"where": "task", "task": spec["tasks"][vi]["name"], "kind": kind, "at": at}
         if code is not None:
             fault["code"] = code
     elif where == "helper":
-        helper = draw(st.sampled_from(["worker", "worker", "data", "shm"]))
+        helper = stratum[1] if stratum is not None else draw(st.sampled_from(["worker", "worker", "data", "shm"]))
         fault = {"where": "helper", "helper": helper, "host": draw(st.integers(0, hosts - 1)), "worker": draw(st.integers(0, workers - 1)),
-                 "signal": draw(st.sampled_from(["SIGKILL", "SIGKILL", "SIGTERM"])), "after_events": draw(st.integers(0, 4))}
+                 "signal": stratum[2] if stratum is not None else draw(st.sampled_from(["SIGKILL", "SIGKILL", "SIGTERM"])),
+                 "after_events": draw(st.integers(0, 4))}
     else:
         fault = {"where": "none"}
-    return {"job": spec, "hosts": hosts, "workers": workers, "fault": fault}
+    # host names as a batch system hands them out can be long (the shm segment names are derived from them)
+    suffix = draw(st.sampled_from(["", "", "-compute-node-000017.cluster", "-n01"]))
+    return {"job": spec, "hosts": hosts, "workers": workers, "fault": fault, "host_suffix": suffix}
 
 
 _case_no = [0]
@@ -158,7 +180,23 @@ def shard(seed, cases_n, tier):
     def body(plan):
         return run_plan_checked(plan, st_)
 
-    common.hyp_run(plans(), body, st_, seed, cases_n, shrink=False)
+    # stratified: the 37 kinds of fault are dealt round-robin over the shards' case slots (offset by the seed); what is left of the
+    # budget is drawn freely. The stratum is picked by a counter of generated examples, not by Hypothesis, which would favour the
+    # first few kinds
+    idx = int(os.environ.get("VERIF_SHARD", "0"))
+    nsh = int(os.environ.get("VERIF_SHARDS", "1"))
+    total = cases_n * nsh
+    full_rounds = total // len(STRATA)
+    k = [0]
+
+    @st.composite
+    def stratified(draw):
+        slot = idx + k[0] * nsh
+        k[0] += 1
+        stratum = STRATA[(slot + seed // 1000) % len(STRATA)] if slot < full_rounds * len(STRATA) else None
+        return draw(plans(stratum))
+
+    common.hyp_run(stratified(), body, st_, seed, cases_n, shrink=False)
     return st_
 
 
